@@ -3,7 +3,7 @@ from collections.abc import Callable
 from typing import Any, Optional, Type
 
 from mashumaro.core.meta.code.builder import CodeBuilder
-from mashumaro.core.meta.helpers import is_optional, is_type_var_any
+from mashumaro.core.meta.helpers import is_nullable, is_type_var_any
 from mashumaro.core.meta.types.common import (
     AttrsHolder,
     FieldContext,
@@ -36,7 +36,7 @@ class CodecCodeBuilder(CodeBuilder):
             could_be_none = (
                 shape_type in (Any, type(None), None)
                 or is_type_var_any(self.get_real_type("", shape_type))
-                or is_optional(
+                or is_nullable(
                     shape_type, self.get_field_resolved_type_params("")
                 )
             )
@@ -72,7 +72,7 @@ class CodecCodeBuilder(CodeBuilder):
             could_be_none = (
                 shape_type in (Any, type(None), None)
                 or is_type_var_any(self.get_real_type("", shape_type))
-                or is_optional(
+                or is_nullable(
                     shape_type, self.get_field_resolved_type_params("")
                 )
             )
